@@ -2,6 +2,7 @@ package commands
 
 import (
 	"os"
+	"path"
 
 	"github.com/git-lfs/git-lfs/v3/git"
 	"github.com/git-lfs/git-lfs/v3/locking"
@@ -60,6 +61,14 @@ func postCheckoutRevChange(client *locking.Client, pre, post string) {
 	if err != nil {
 		LoggedError(err, "%s\n%s", tr.Tr.Get("Warning: post-checkout rev diff %v:%v failed: %v", pre, post, err), tr.Tr.Get("Falling back on full scan."))
 		postCheckoutFileChange(client)
+	}
+	// A changed attributes file may have made files lockable (or no longer
+	// so) that did not change themselves: everything has to be looked at.
+	for _, f := range files {
+		if path.Base(f) == ".gitattributes" {
+			postCheckoutFileChange(client)
+			return
+		}
 	}
 	tracerx.Printf("post-checkout: checking write flags on %v", files)
 	err = client.FixLockableFileWriteFlags(files)
